@@ -45,6 +45,12 @@ SEEDS = {
     "C18c": ("C18", "zygosity_from_freq re-uses the tumour's zygosity array for the normal", "paired sample + zygosity_freq + tumour frequency outside the het band where the normal's is inside", "caught", None),
     "C19c": ("C19", "modal_location builds its KDE from np.unique(a)", "data with repeated values", "caught", None),
     "C20c": ("C20", "export_bed copies derived copy numbers through a fresh-index Series", "segments without cn column and a non-default row index", "caught", None),
+    "C03d": ("C03", "transfer_fields aggregates weight/depth/gene over the segment coordinates copied before the end-point stretch", "edge bins of an arm removed by a filter (skip_low, min_weight, outliers, zero weight)", "caught", None),
+    "C04d": ("C04", "autosomes(): regex `chr?\\d+$` (case-insensitive) no longer matches plain integer names", "plain chromosome naming (1, 2, X) with sex chromosomes offset from the autosomes", "missed", "C04 (and C03, C11, C14, C16, C17) now draw the chromosome naming style: chr1..chrX or 1..X"),
+    "C05d": ("C05", "calculate_gc_lo counts every non-'N' symbol (lowercase n, IUPAC codes) as a called base", "a FASTA whose bins contain lowercase n or ambiguity codes", "caught", None),
+    "C09d": ("C09", "--count clips the bin end to the contig length (and then uses it as divisor and output coordinate)", "--count with a bin running past the end of its contig", "caught", None),
+    "C10d": ("C10", "get_combiners fills its defaults into the caller's `combine` dict", "merge / flatten with a caller-supplied combiner dict on overlapping rows; the strand combiner sticks from the first call", "missed", "C10 now has a step that merges / flattens an overlapping mixed-strand table with a shared combiner dict"),
+    "C20d": ("C20", "create_chrom_ids skips every all-digit chromosome name", "export seg --enumerate-chroms with plain names whose autosomes are not a contiguous 1..n", "missed", "C20 now draws both naming styles and non-contiguous autosome panels for the multi-sample exports"),
 }
 
 
